@@ -130,7 +130,7 @@ func run(cs Case) ev.Outcome {
 			io, vals, err := circuit.StreamEvaluator(eConn, eOT, ys, nil, false)
 			eIO = io
 			return vals, err
-		}, 3*time.Second, 180*time.Second)
+		}, 10*time.Second, 180*time.Second)
 	d.Close()
 
 	desc := fmt.Sprintf("x=%v y=%v", xs, ys)
